@@ -1,6 +1,6 @@
 #!/bin/sh
 # Re-generates the golden images from the PINNED commit. Documentation of how /verif/golden/images was
-# produced; no check runs this. Usage: golden/regen.sh   (needs /repo with commit 4b82afd reachable)
+# produced; no check runs this. Usage: golden/regen.sh [only-wide]   (needs /repo with commit 4b82afd reachable)
 set -e
 PIN=4b82afd
 W=/tmp/aby_pinned_$$
@@ -20,6 +20,6 @@ edition = "2021"
 abyssiniandb = { path = "$W" }
 EOT
 cp /repo/Cargo.lock $G/Cargo.lock
-(cd $G && CARGO_NET_OFFLINE=true cargo run --release --offline -- /verif/golden/images)
+(cd $G && CARGO_NET_OFFLINE=true cargo run --release --offline -- /verif/golden/images "$@")
 git -C /repo worktree remove --force $W
 rm -rf $G
